@@ -331,6 +331,21 @@ func (vm *VM) setFromReflectValue(r int8, v reflect.Value) registerType {
 	}
 }
 
+// iterationValue returns the value to assign to an iteration variable of a
+// 'for range' statement given the key, the element or the received value v.
+//
+// An array or a struct is copied into a new addressable value, as the Move
+// instruction does, because the iteration variable can be modified by the
+// body and must not alias the element of the slice or array.
+func iterationValue(v reflect.Value) reflect.Value {
+	if k := v.Kind(); k == reflect.Array || k == reflect.Struct {
+		c := reflect.New(v.Type()).Elem()
+		c.Set(v)
+		return c
+	}
+	return v
+}
+
 func appendCap(oc, nl int) int {
 	if oc == 0 || nl > oc*2 {
 		return nl
